@@ -26,7 +26,7 @@ def run(chk, replay=None):
         chk.absorb(recs, verdicts, rp)
     chk.exhaustive = True
     chk.traces_validated = len(chk.distinct)
-    chk.rule = ('one case per subset of <= %d breaches out of 12 hard + 6 soft rule breaches injected at specific entities of the base file (all subsets, '
-                'incompatible pairs excluded); evaluations = entity validations; compared: per entity "has an error", and File::validate().hasErrors()') % (3 if chk.thorough else 2)
+    chk.rule = ('one case per subset of <= %d breaches out of 15 hard + 6 soft rule breaches injected at specific entities of the base file (all subsets, '
+                'incompatible pairs excluded); evaluations = entity validations; compared: per entity "has an error", and File::validate().hasErrors()') % (4 if chk.thorough else 3)
     chk.assumptions += ['one base-file shape (3 length variants by seed); message texts and warnings are not compared, only the presence of errors per entity',
                         'trusted: TLC, harness/h_valid.cpp, HDF5 C API for the breaches the API refuses (unsorted ticks, interval <= 0, missing positions)']
